@@ -200,6 +200,22 @@ func (p *pairRig) apply(ev Sx) Sx {
 			p.ba = nil
 		}
 		return p.obs(p.a.idle(), ob)
+	case "stopa": // Initiator.Stop / Acceptor.Stop: the engine sends its Logout and waits for the answer
+		oa := p.a.apply(L(Sym("stop")))
+		if p.up {
+			p.ab = p.ab.push(p.a.lastOut)
+		} else {
+			p.ab = nil
+		}
+		return p.obs(oa, p.b.idle())
+	case "stopb":
+		ob := p.b.apply(L(Sym("stop")))
+		if p.up {
+			p.ba = p.ba.push(p.b.lastOut)
+		} else {
+			p.ba = nil
+		}
+		return p.obs(p.a.idle(), ob)
 	case "cut":
 		oa := p.a.apply(L(Sym("inclosed")))
 		ob := p.b.apply(L(Sym("inclosed")))
@@ -277,6 +293,7 @@ func genOnePair(rng *rand.Rand, steps int) (Sx, Sx) {
 		obs = append(obs, p.apply(ev))
 	}
 	n := 0
+	stoppedA, stoppedB := false, false
 	id := func() Sx {
 		n++
 		if rng.Intn(4) == 0 {
@@ -292,6 +309,14 @@ func genOnePair(rng *rand.Rand, steps int) (Sx, Sx) {
 			case 1:
 				do(L(Sym("sendb"), id()))
 			default:
+				if stoppedA && rng.Intn(2) == 0 {
+					do(L(Sym("restarta")))
+					stoppedA = false
+				}
+				if stoppedB && rng.Intn(2) == 0 {
+					do(L(Sym("restartb")))
+					stoppedB = false
+				}
 				do(L(Sym("connect")))
 			}
 			continue
@@ -308,14 +333,33 @@ func genOnePair(rng *rand.Rand, steps int) (Sx, Sx) {
 		case x < 36:
 			do(L(Sym("cut")))
 		case x < 37:
-			do(L(Sym("restarta")))
+			if rng.Intn(2) == 0 {
+				do(L(Sym("restarta")))
+				stoppedA = false
+			} else if !stoppedA { // the engine is stopped in the middle of whatever is going on (a recovery, in-flight traffic)
+				do(L(Sym("stopa")))
+				stoppedA = true
+			}
 		case x < 38:
-			do(L(Sym("restartb")))
+			if rng.Intn(2) == 0 {
+				do(L(Sym("restartb")))
+				stoppedB = false
+			} else if !stoppedB {
+				do(L(Sym("stopb")))
+				stoppedB = true
+			}
 		case x < 39:
 			do(L(Sym("timera"), Int(rng.Intn(2))))
 		default:
 			do(L(Sym("timerb"), Int(rng.Intn(2))))
 		}
+	}
+	// a stopped engine comes back only by being recreated on its store
+	if stoppedA {
+		do(L(Sym("restarta")))
+	}
+	if stoppedB {
+		do(L(Sym("restartb")))
 	}
 	// the link stays up for a while: reconnect, deliver everything, a heartbeat round, deliver everything
 	do(L(Sym("cut")))
